@@ -427,3 +427,103 @@ def replay_block_table(ver, nm):
     except KeyError:
         return False
     return got._codepoints == UnicodeSubset(want[nm])._codepoints
+
+
+# --- CharacterClass: membership of a symbolic code point vs an independent oracle; histories that would expose shared state ---------
+
+from elementpath.regex import CharacterClass  # noqa: E402
+from verif_lib import rx as _rx  # noqa: E402
+
+
+def _oracle_ranges(text):
+    ir = _rx.XsdRef('[' + text + ']').parse()
+    while ir[0] == 'cat' and len(ir[1]) == 1:
+        ir = ir[1][0]
+    assert ir[0] == 'set', ir[0]
+    return ir[1]
+
+
+def _in_ranges(x, rs):
+    lo, hi = 0, len(rs)
+    while lo < hi:
+        mid = (lo + hi) // 2
+        if rs[mid][1] < x:
+            lo = mid + 1
+        elif rs[mid][0] > x:
+            hi = mid
+        else:
+            return True
+    return False
+
+
+CC_TEXTS = {'digits': '\\d', 'nondigit_a': 'a\\D', 'range': 'a-c', 'nonspace_blank': '\\S ', 'neg_digit_5': '\\d-[5]', 'lower_minus_vowels': 'a-z-[aeiou]',
+            'not_a_D': '^a\\D', 'nonspace_minus': '\\S-[a7]', 'D5_minus_5': '\\D5-[5]', 'not_a_minus_Db': '^a-[\\Db]'}
+_CCS = '''
+@ob(budget=200, family='character-class', bound='class [{text}]: membership of every code point x equals the XSD reference; after complement() it is the negation',
+    funcs=['elementpath/regex/character_classes.py:CharacterClass.add/complement/__isub__/__contains__'])
+def charclass_{name}(x: int) -> bool:
+    """
+    pre: 0 <= x < 0x110000
+    post: _
+    """
+    cc = _parse_class({text!r})
+    want = _in_ranges(x, ORACLE[{name!r}])
+    if (x in cc) != want:
+        return False
+    cc.complement()
+    return (x in cc) == (not want)
+'''
+
+
+def _parse_class(text):
+    """the same steps translate_pattern performs for a bracket expression: optional ^, optional -[subtraction]"""
+    neg = text.startswith('^')
+    body = text[1:] if neg else text
+    sub = None
+    if '-[' in body:
+        body, rest = body.split('-[', 1)
+        sub = rest[:-1]
+    cc = CharacterClass(body)
+    if neg:
+        cc.complement()
+    if sub is not None:
+        cc -= _parse_class(sub)
+    return cc
+
+
+ORACLE = {k: _oracle_ranges(v) for k, v in CC_TEXTS.items()}
+for _k, _v in CC_TEXTS.items():
+    define(_CCS.format(name=_k, text=_v), globals())
+
+
+def _mutation_history():
+    """performed concretely, once, BEFORE the condition below runs: if a class aliased a cached/shared subset, the in-place
+    operations below would corrupt what later fresh classes are built from"""
+    a = CharacterClass(chr(92) + 'S')
+    a -= CharacterClass('a7')
+    b = CharacterClass(chr(92) + 'D')
+    b -= CharacterClass('x')
+    b.discard('.')
+    c = CharacterClass(chr(92) + 'W')
+    c.complement()
+    c -= CharacterClass('_')
+    d = CharacterClass(chr(92) + 'I')
+    d -= CharacterClass('q')
+    return a
+
+
+_HIST_A = _mutation_history()
+
+
+@ob(budget=200, bound='after a concrete history of in-place operations on classes built from negated escapes: FRESH classes [\\S], [\\s], [\\d], [\\D] and the Nd category still agree with the reference for every code point x',
+    funcs=['elementpath/regex/character_classes.py:CharacterClass.add (shared cached subsets)', U + ':lazy_subset / unicode_category'])
+def charclass_history_no_shared_state(x: int) -> bool:
+    """
+    pre: 0 <= x < 0x110000
+    post: _
+    """
+    from elementpath.regex import unicode_category
+    nd = _in_ranges(x, ORACLE['digits'])
+    sp = x in (9, 10, 13, 32)
+    return (x in CharacterClass(chr(92) + 'S')) == (not sp) and (x in CharacterClass(chr(92) + 's')) == sp and (x in CharacterClass(chr(92) + 'd')) == nd \
+        and (x in CharacterClass(chr(92) + 'D')) == (not nd) and (x in unicode_category('Nd')) == nd and (x in _HIST_A) == (not sp and x not in (97, 55))
